@@ -36,8 +36,8 @@ func init() {
 	register(&Property{
 		ID:          "C04",
 		Title:       "Foreign keys: targets exist, back-references exact, delete restricts or cascades",
-		Technique:   "static analysis: taint rule (no run-time text flows into a filter parser from inside the library), wiring rule for the Add*Fk* registrations, existence-check dominance, old-back-reference-removed-on-every-changed-path rule, shape rule for the restrict/cascade delete loop (delete inside the live cursor loop with re-seek)",
-		LevelText:   "Necessary conditions decided on every path: no filter text is assembled from data inside the library (ids with quotes, backslashes or keywords cannot change a query's meaning); every fk registration also registers the delete-side constraint on the target store; a back-reference is written only into an existing target (not-found otherwise) and fk constraints test the target's presence; on update the old back-reference is removed on every path where the reference changed; restrict refuses while a referrer exists; cascade deletes referrers from the live cursor (re-seeking after each delete), returning on the first error. Exact back-reference sets after histories are not decided.",
+		Technique:   "static analysis: taint rule (no run-time text flows into a filter parser from inside the library), wiring rule for the Add*Fk* registrations, existence-check dominance, old-back-reference-removed-on-every-changed-path rule, shape rule for the restrict/cascade delete loop (delete inside the live cursor loop with re-seek); raw-id rule for the cascade filter constant",
+		LevelText:   "Necessary conditions decided on every path: no filter text is assembled from data inside the library (ids with quotes, backslashes or keywords cannot change a query's meaning); every fk registration also registers the delete-side constraint on the target store; a back-reference is written only into an existing target (not-found otherwise) and fk constraints test the target's presence; on update the old back-reference is removed on every path where the reference changed; restrict refuses while a referrer exists; cascade deletes referrers from the live cursor (re-seeking after each delete), returning on the first error. Exact back-reference sets after histories are not decided. The constant of the cascade/restrict filter is the id parameter itself (nothing unquotes or unescapes it); every loop that deletes referrers re-seeks its cursor.",
 		LevelNote:   "Trusted: go/types, x/tools SSA, bbolt; evaluation of the AST filter used by the cascade is C01's domain.",
 		DesignRef:   "DESIGN.md C04",
 		Explanation: "Sites: every call of ast.Parse/QueryIds/DeleteWhere/zitiql.Parse made from library code; Indexer.Add*Fk*; fkIndex/fkConstraint/fkDeleteConstraint/fkDeleteCascadeConstraint Process* methods.",
@@ -57,8 +57,8 @@ func init() {
 	register(&Property{
 		ID:          "C05",
 		Title:       "Link collections stay symmetric; ref-counted links agree on both sides",
-		Technique:   "static analysis: pairing rule (every local link write is followed on all success paths by the opposite-side write of the same polarity with swapped arguments), missing-entity error rule, count-agreement check rule, unconditional remote removal on entity delete, no-mutation-of-the-iterated-bucket rule, error-holder consultation",
-		LevelText:   "Necessary conditions decided on every path: each function that writes the local side of a link also performs the remote operation of the same polarity with (id, key) swapped before reporting success; adding a link to a missing entity returns an error; increment/decrement compare both sides' new counts; deleting an entity removes the remote entry of every link unconditionally and both link kinds are cleaned up; no function deletes from a bucket while it is walking that bucket's cursor; recorded bucket errors are returned. Correctness of the SetLinks sorted merge on data is not decided.",
+		Technique:   "static analysis: pairing rule (every local link write is followed on all success paths by the opposite-side write of the same polarity with swapped arguments), missing-entity error rule, count-agreement check rule, unconditional remote removal on entity delete, no-mutation-of-the-iterated-bucket rule, error-holder consultation; error discipline on the link functions (incl. tested-but-unused errors); must-write rule for the remote count; delete orchestration",
+		LevelText:   "Necessary conditions decided on every path: each function that writes the local side of a link also performs the remote operation of the same polarity with (id, key) swapped before reporting success; adding a link to a missing entity returns an error; increment/decrement compare both sides' new counts; deleting an entity removes the remote entry of every link unconditionally and both link kinds are cleaned up; no function deletes from a bucket while it is walking that bucket's cursor; recorded bucket errors are returned. Correctness of the SetLinks sorted merge on data is not decided. No link function loses a failure of either side (an error that is only tested for nil and then dropped is reported); the remote side of setLinkCount/incrementLinkCount writes on every successful path; link cleanup runs for every deleted entity, also through child stores.",
 		LevelNote:   "Trusted: go/types, x/tools SSA, bbolt cursor semantics (deleting under a live cursor may skip entries).",
 		DesignRef:   "DESIGN.md C05",
 		Explanation: "Sites: all functions of link_collection.go and link_collection_rc.go, TypedBucket link-count methods, BaseStore.cleanupLinks.",
